@@ -211,6 +211,87 @@ func (x *oambugRun) do(op string) string {
 				}
 			}
 			return fmt.Sprintf("changed(%d bytes)", diff)
+		case "mon":
+			// runtime monitor of the property itself: a program that never stores into FE00-FE9F and starts no
+			// DMA runs with the LCD ON (with occasional off/on), partly executing from inside OAM; whenever the OAM
+			// bytes change during a machine cycle, that cycle must have begun with the LCD on and in mode 2
+			seed, cycles := uint64(atoi(w[1])), atoi(w[2])
+			r := &rng{s: seed*0x9e3779b97f4a7c15 + 7}
+			rom := buildImage(0, 0, 0, func(i int) uint8 { return 0 })
+			rom[0x100], rom[0x101], rom[0x102] = 0xc3, 0x00, 0x02 // JP 0200
+			var p []uint8
+			emit := func(b ...uint8) { p = append(p, b...) }
+			emit(0x31, 0x00, 0xd0+r.byte()%0x0f) // SP in WRAM: stack writes never reach OAM
+			emit(0x01, r.byte(), 0xfe, 0x11, r.byte(), 0xfe, 0x21, r.byte(), 0xfe)
+			for len(p) < 160 {
+				switch r.intn(10) {
+				case 0:
+					emit([]uint8{0x03, 0x13, 0x23}[r.intn(3)])
+				case 1:
+					emit([]uint8{0x0b, 0x1b, 0x2b}[r.intn(3)])
+				case 2:
+					emit([]uint8{0x0a, 0x1a, 0x7e, 0x2a, 0x3a}[r.intn(5)])
+				case 3:
+					emit(0x21, r.byte(), 0xfe)
+				case 4:
+					emit(0x86 + uint8(r.intn(8))*8)
+				case 5:
+					emit(0xcd, 0x00+uint8(r.intn(0x9f)), 0xfe) // CALL into OAM: the code there ends in RET
+				case 6:
+					for k := r.intn(30); k > 0; k-- {
+						emit(0x00)
+					}
+				case 7:
+					emit(0x01, r.byte(), 0xfe, 0x11, r.byte(), 0xfe)
+				default:
+					emit(0x00)
+				}
+			}
+			emit(0xc3, 0x00, 0x02) // loop
+			copy(rom[0x200:], p)
+			m := newMachine(rom, false)
+			// OAM holds harmless one-byte instructions and frequent RETs (never a store)
+			safe := []uint8{0x00, 0x00, 0x00, 0xc9, 0x03, 0x13, 0x23, 0x0b, 0x1b, 0x2b, 0x04, 0x0c, 0x7e, 0x0a, 0x1a, 0x76, 0xc9, 0x3c, 0x2a, 0x3a}
+			var pattern [0xa0]byte
+			for i := range pattern {
+				pattern[i] = safe[r.intn(len(safe))]
+			}
+			pattern[0x9f] = 0xc9
+			m.oam.VerifSetOAM(pattern)
+			m.mapper.Write(0xffff, 0x01) // VBlank enabled so that HALT inside OAM wakes up (IME stays off)
+			toggleAt := 2000 + r.intn(30000)
+			for k := 0; k < cycles; k++ {
+				if k == toggleAt {
+					m.mapper.Write(0xff40, 0x11)
+				}
+				if k == toggleAt+300 {
+					m.mapper.Write(0xff40, 0x91)
+				}
+				og := m.oam.VerifGet()
+				cs := m.cpu.VerifGet()
+				before := og.OAM
+				lcdOn := m.ppu.ReadLCDC()&0x80 != 0
+				mode := m.ppu.ReadSTAT() & 3
+				m.cycle()
+				if m.exited {
+					break
+				}
+				after := m.oam.VerifGet().OAM
+				if before != after && !(lcdOn && mode == 2) {
+					x.c.class(fmt.Sprintf("mon-violation/mode%d/lcd%v", mode, lcdOn))
+					if os.Getenv("VERIF_DEBUG") != "" {
+						fmt.Fprintf(os.Stderr, "debug: pc=%04x halted=%v cyc=%d bnd=%v corrupt=%v read=%v write=%v dw=%v dma=%v sp=%04x hl=%02x%02x\n", cs.PC, cs.Halted, cs.Cycle, false, og.Corrupt, og.Read, og.Write, og.DoubleWrite, og.DMARunning, cs.SP, cs.H, cs.L)
+					}
+					return fmt.Sprintf("oam-changed-outside-mode2 cycle=%d mode=%d lcd=%v", k, mode, lcdOn)
+				}
+				if before != after {
+					x.c.class("mon/corruption-in-mode2")
+					// the bug has scrambled the code that lives in OAM: put the harmless pattern back so that the
+					// program still never stores into OAM
+					m.oam.VerifSetOAM(pattern)
+				}
+			}
+			return "ok"
 		}
 		return "bad-op"
 	})
@@ -252,6 +333,9 @@ func oambugGen(c *ctx) {
 	}
 	for k := 0; k < n; k++ {
 		x.do(fmt.Sprintf("run %d %d %d %d", c.rng.intn(1<<30), 2+c.rng.intn(2*17556), 300+c.rng.intn(1500), c.rng.intn(2)))
+	}
+	for k := 0; k < n/4; k++ {
+		x.do(fmt.Sprintf("mon %d %d", c.rng.intn(1<<30), 40000))
 	}
 }
 
